@@ -290,6 +290,23 @@ pub fn wait_quiescent(c: &CtlRef) {
     }
 }
 
+thread_local! {
+    /// set when a task of the current execution panicked: the execution is being torn down
+    static DEAD: std::cell::Cell<bool> = const { std::cell::Cell::new(false) };
+    /// set when this OS thread hosted a failed execution: the batch runner retires the thread
+    static RETIRE: std::cell::Cell<bool> = const { std::cell::Cell::new(false) };
+}
+
+pub fn execution_dead() -> bool {
+    DEAD.with(|d| d.get())
+}
+pub fn mark_dead() {
+    DEAD.with(|d| d.set(true));
+}
+pub fn take_retire() -> bool {
+    RETIRE.with(|r| r.replace(false))
+}
+
 #[derive(Debug)]
 pub enum SimEnd {
     Completed,
@@ -327,6 +344,7 @@ where
     let runner = shuttle::Runner::new(sched, config);
     let slot = Mutex::new(Some(f));
     let c2 = ctl_ref.clone();
+    DEAD.with(|d| d.set(false));
     let res = catch_unwind(AssertUnwindSafe(move || {
         runner.run(move || {
             let f = slot.lock().unwrap_or_else(|e| e.into_inner()).take();
@@ -335,9 +353,11 @@ where
             }
         })
     }));
+    DEAD.with(|d| d.set(false));
     let end = match res {
         Ok(_) => SimEnd::Completed,
         Err(p) => {
+            RETIRE.with(|r| r.set(true));
             let t = crate::hsim::panic_text(p);
             if t.contains("deadlock!") {
                 SimEnd::Deadlock(t)
